@@ -801,6 +801,17 @@ fn check_solo_family(prop: &str, tier: Tier, seed: u64) -> i32 {
         stats.add("tree.nodes_judged", n);
         tree_found = to.found;
     }
+    // C01 / C03 / C17: state cover of the reference machine's object-graph fragment, steered
+    let mut cover_info = json!(null);
+    if prop == "C01" || prop == "C03" || prop == "C17" {
+        let (d1, d2, stride) = match tier { Tier::Quick => (8usize, 6usize, 4usize), Tier::Thorough => (10, 8, 1) };
+        let co = synth::cover_sweep(spec.prop, d1, d2, stride, &known, &mut stats);
+        stats.evaluations += co.steered as u64;
+        stats.add("synth.state_cover_programs_judged", co.steered as u64);
+        cover_info = json!({"reference_states_explored": co.states, "programs": co.leaves, "steered_and_judged": co.steered, "not_offered_by_the_generator": co.unsteerable,
+            "depth_objects_vocabulary": d1, "depth_containers_vocabulary": d2, "stride": stride});
+        tree_found.extend(co.found);
+    }
     // C14 soak leg: long-lived generators (one per protocol, each on its own measuring thread)
     let mut soak_found: Vec<props::Violation> = vec![];
     if prop == "C14" {
@@ -923,6 +934,7 @@ fn check_solo_family(prop: &str, tier: Tier, seed: u64) -> i32 {
             "wall_cap_hit": out.capped,
             "decision_tree_enumeration": tree_info,
             "model_based_program_synthesis": synth_info,
+            "model_based_state_cover": cover_info,
             "cpython_cross_check": {"available": rep.available, "compared": rep.compared, "hard_disagreements": rep.hard.len(), "soft_disagreements_on_damaged_inputs": rep.soft.len()},
         }),
         assumptions: engine::default_assumptions(),
